@@ -201,6 +201,37 @@ impl Process for PreSetProcessor {
 //@@ endfn
 }
 
+// --set: the real constructor (C18: malformed / duplicate --set; C03: the stage carries exactly the parsed bindings)
+pub mod ps {
+use super::*;
+use std::result::Result;
+//@@ include prelude/preset_trait.rs
+}
+use ps::*;
+impl PreSetCollection for Vec<String> {
+    open spec fn texts(&self) -> Seq<String> { self@ }
+//@@ fn preset.create_process = src/pre_sets.rs :: impl PreSetCollection for Vec<String> :: fn create_process
+//@@ safety C03 C18
+//@@ body-start
+        broadcast use cl::group_clone_is_copy;
+//@@ loop 1 iter it
+            invariant
+                it.seq().len() == self@.len(), 0 <= it.index@ <= self@.len(),
+                forall|j: int| 0 <= j < it.seq().len() ==> *(#[trigger] it.seq()[j]) == self@[j],
+                // every text so far parsed, no name bound twice, and the two maps hold exactly the bindings parsed so far
+                forall|j: int| 0 <= j < it.index@ ==> preset_key(#[trigger] self@[j]@) is Some,
+                forall|i: int, j: int| 0 <= i < j < it.index@ ==> preset_key(#[trigger] self@[i]@) != preset_key(#[trigger] self@[j]@),
+                forall|k: String| #[trigger] variables@.contains_key(k) <==> exists|j: int| 0 <= j < it.index@ && preset_key(#[trigger] self@[j]@) == Some((k, true)),
+                forall|k: String| #[trigger] macros@.contains_key(k) <==> exists|j: int| 0 <= j < it.index@ && preset_key(#[trigger] self@[j]@) == Some((k, false)),
+                variables@ =~= vars_upto(self@, it.index@ as int),
+                macros@ =~= macros_upto(self@, it.index@ as int),
+//@@ loop-start 1
+            broadcast use cl::group_clone_is_copy;
+//@@ before "return Ok(next);"
+            proof { assert(self@.len() == 0 ==> is_preset_of(next, next, true, Map::empty(), Map::empty())); }
+//@@ endfn
+}
+
 // ------------------------------------------------------------------ src/splitter.rs
 //@@ item src/splitter.rs :: struct SplitterProcess
 //@@ enditem
